@@ -159,7 +159,7 @@ def run_job(job, cfg, scratch, keep=False, variant=None):
         cmd = ['goto-cc', '--function', job.entry] + defs + inc + [os.path.join(VERIF, job.harness), '-o', gb]
         rc, so, se, dt = sh(cmd, timeout=600, mem_gb=job.mem_gb)
         if rc != 0: raise Undecided('goto-cc failed: %s' % (se + so)[-3000:])
-        rc, so, se, dt = sh(['goto-instrument', '--drop-unused-functions', gb, gb], timeout=600, mem_gb=job.mem_gb)
+        rc, so, se, dt = (0, '', '', 0) if job.dfcc else sh(['goto-instrument', '--drop-unused-functions', gb, gb], timeout=600, mem_gb=job.mem_gb)
         if rc != 0: raise Undecided('goto-instrument --drop-unused-functions failed: %s' % (se + so)[-2000:])
         cur = gb
         if job.dfcc:
